@@ -643,6 +643,20 @@ class ProbabilisticTensorDictModule(TensorDictModuleBase):
                 if self.return_log_prob:
                     log_prob = dist.log_prob(*out_tensors)
                     tensordict_out.set(self.log_prob_key, log_prob)
+        elif self.return_log_prob and isinstance(dist, CompositeDistribution):
+            # The samples were written upstream: a composite distribution scores them as a tensordict,
+            # and the log-probs are written like in the sampling branch.
+            with set_composite_lp_aggregate(False):
+                log_prob = dist.log_prob(tensordict.select(*self.dist_sample_keys))
+            if composite_lp_aggregate():
+                tensordict_out.update(log_prob)
+                tensordict_out.set(
+                    self.log_prob_key,
+                    sum(log_prob.sum(dim="feature").values(True, True)),
+                )
+            else:
+                self._update_td_lp(log_prob)
+                tensordict_out.update(log_prob)
         elif self.return_log_prob:
             out_tensors = [
                 tensordict.get(key)
